@@ -207,8 +207,8 @@ Definition fill_rect (st : dt) (x y w h : f32) (src : source) (o : draw_options)
   let ix := to_i32 x in let iy := to_i32 y in let iw := to_i32 w in let ih := to_i32 h in
   let integer_rect := feq (of_int ix) x && feq (of_int iy) y && feq (of_int iw) w && feq (of_int ih) h in
   if xf_is_identity (d_ctm st) && integer_rect && (match d_clips st with [] => true | _ => false end) then
-    do xr <- chk32 (ix + iw);
-    do yb <- chk32 (iy + ih);
+    let xr := sat32 (ix + iw) in
+    let yb := sat32 (iy + ih) in
     let irect := r_inter (mkrect (Z.min ix xr) (Z.min iy yb) (Z.max ix xr) (Z.max iy yb)) (surface_rect st) in
     if r_empty irect then Ok st else composite st src None irect irect (o_blend o) (o_alpha o)
   else fill st (rect_path x y w h) src o.
@@ -224,8 +224,8 @@ Definition clear (st : dt) (c : Z) : result dt :=
   end.
 
 Definition mask_op (st : dt) (src : source) (x y : Z) (mw mh : Z) (data : list Z) : result dt :=
-  do xr <- chk32 (x + mw);
-  do yb <- chk32 (y + mh);
+  let xr := sat32 (x + mw) in
+  let yb := sat32 (y + mh) in
   let mr := mkrect x y xr yb in
   composite st src (Some data) mr mr SrcOver f1.
 
